@@ -328,8 +328,11 @@ func recoverTable(s *session, o *opt.Options) error {
 			}
 		}()
 
-		// Copy entries.
-		tw := table.NewWriter(writer, o, nil, 0)
+		// Copy entries. The keys are internal keys, so the table must be
+		// written with the session's options (internal-key comparer and
+		// filter), exactly as tOps.create does; the user's comparer and
+		// filter must not see internal keys.
+		tw := table.NewWriter(writer, s.o.Options, nil, 0)
 		for iter.Next() {
 			key := iter.Key()
 			if validInternalKey(key) {
